@@ -90,7 +90,20 @@ pub fn big_mutations(e: &[u8]) -> Vec<Vec<u8>> {
     out
 }
 
+/// in the quick tier only one representative per collection impl and code path gets large values
+const BIG_QUICK: &[&str] = &[
+    "vec::Vec<u64>", "vec::Vec<u16>", "vec::Vec<(u8, u16)>", "vec::Vec<vec::Vec<u8>>", "vec::Vec<core::option::Option<u16>>",
+    "vec::Vec<alloy_primitives::bytes_::Bytes>", "smallvec::SmallVec<[u16; 4]>", "smallvec::SmallVec<[vec::Vec<u8>; 2]>",
+    "collections::btree::set::BTreeSet<u16>", "collections::btree::set::BTreeSet<vec::Vec<u8>>",
+    "collections::btree::map::BTreeMap<u8, u16>", "collections::btree::map::BTreeMap<u16, vec::Vec<u8>>",
+    "alloy_primitives::bytes_::Bytes", "core::option::Option<alloy_primitives::bytes_::Bytes>",
+    "(alloy_primitives::bytes_::Bytes, alloy_primitives::bytes_::Bytes)", "catalogue::CBB", "vec::Vec<catalogue::CM>",
+];
+
 fn big_values_for<T: Model>(ctx: &mut Ctx) -> Vec<T> {
+    if !ctx.thorough && !BIG_QUICK.contains(&T::rust_name().as_str()) {
+        return Vec::new();
+    }
     let mut b = T::big_values(&mut ctx.rng);
     if !ctx.thorough {
         b.truncate(1);
@@ -355,12 +368,22 @@ pub fn run_dec<T: Model>(ctx: &mut Ctx) {
     let mut big_inputs: Vec<Vec<u8>> = Vec::new();
     for v in big_values_for::<T>(ctx) {
         if let Ok(e) = catch_unwind(AssertUnwindSafe(|| v.as_ssz_bytes())) {
-            big_inputs.extend(big_mutations(&e));
-            big_inputs.push(e);
+            let muts = big_mutations(&e);
+            if T::big_model_ok() {
+                // a handful of the long inputs also go to the model, the rest to the implementation-side oracles only
+                inputs.push(e);
+                for (k, m) in muts.into_iter().enumerate() {
+                    if k % 4 == 0 {
+                        inputs.push(m);
+                    } else {
+                        big_inputs.push(m);
+                    }
+                }
+            } else {
+                big_inputs.extend(muts);
+                big_inputs.push(e);
+            }
         }
-    }
-    if T::big_model_ok() {
-        inputs.append(&mut big_inputs);
     }
     inputs.extend(short_strings(ctx.thorough));
     let fl = <T as Decode>::ssz_fixed_len();
